@@ -133,14 +133,20 @@ from cryptodatahub.dnsrec.algorithm import DnsSecAlgorithm
 from cryptoparser.dnsrec.record import DnsRecordDnskey, DnsSecFlag, DnsSecProtocol
 key = PublicKey.from_params(PublicKeyParamsEddsa(curve_type=NamedGroup.CURVE25519, key_data=bytes(32)))
 flags = list(DnsSecFlag)
-perms = []
-for _ in range(6):
-    rng.shuffle(flags)
-    s = set()
-    for f in flags:
-        s.add(f)
-    rec = DnsRecordDnskey(s, DnsSecAlgorithm.ED25519, key, DnsSecProtocol.V3)
-    perms.append([rec.as_json(), rec.as_markdown()])
+import itertools
+perms = {}
+for k in (2, 3, len(flags)):
+    for combo in itertools.permutations(flags, k) if k < len(flags) else [tuple(rng.sample(flags, len(flags))) for _ in range(6)]:
+        for build in (set, frozenset):
+            if build is set:
+                s = set()
+                for f in combo:
+                    s.add(f)
+            else:
+                s = frozenset(combo)
+            rec = DnsRecordDnskey(s, DnsSecAlgorithm.ED25519, key, DnsSecProtocol.V3)
+            perms.setdefault(','.join(sorted(f.name for f in combo)), []).append([rec.as_json(), rec.as_markdown()])
+perms = list(perms.values())
 out['__dnskey_flag_permutations__'] = perms
 print(json.dumps(out))
 '''
@@ -207,8 +213,8 @@ def run(chk):
                 break
     for seed in seeds:
         perms = sw[seed]['__dnskey_flag_permutations__']
-        if any(p != perms[0] for p in perms):
-            chk.violation('DnsRecordDnskey with the same flag set built in different insertion orders serialises differently', {'predicate': 'set-order', 'seed': seed},
+        if any(p != group[0] for group in perms for p in group):
+            chk.violation('DnsRecordDnskey with the same flag set (set or frozenset) built in different insertion orders serialises differently (JSON or Markdown)', {'predicate': 'set-order', 'seed': seed},
                           'DnsRecordDnskey/set-order', True)
             break
     chk.coverage['evaluations'] = evals + len(seeds) * len(ref)
